@@ -225,6 +225,7 @@ def runC03 (t : Tier) : Emit Unit := do
   -- complete (or never do)
   let m00 ← liftGen (smallStream 0)
   let pat0 := (m00.units.filter (·.pid == 0)).headD default
+  let pat0Bytes : Bytes := bytesOf (Spec.packetsOf pat0 0)
   for sl in [1300, 1464, 1465, 2000, 4095] do
     for pidT in [0, 0x1000] do
       let junk ← liftGen (randBytes (sl + 40))
@@ -243,6 +244,23 @@ def runC03 (t : Tier) : Emit Unit := do
       let u : Spec.TSUnit := { pid := pidT, payload := unit, data := [], psi := true, chunks := [unit.length] }
       let st : Spec.StreamModel := { units := (if pidT = 0 then [u] else [pat0, u]), schedule := [] }
       emit "C03" (demuxCase st.bytes { view := .seq } none none "tiny-section-length")
+  -- adaptation_field_length beyond the packet (184..255), adaptation field only / with payload, in a stream
+  for afl in [183, 184, 185, 200, 254, 255] do
+    for afc in [0x20, 0x30] do
+      let fill ← liftGen (randBytes 183)
+      let bad : Bytes := [0x47, 0x41, 0x00, afc + 1, afl] ++ fill
+      emit "C03" (demuxCase (pat0Bytes ++ bad ++ bad) { view := .seq } none none "adaptation-field-length-beyond-packet")
+      emit "C03" (demuxCase (bad ++ bad) { view := .seq, packetAPI := true } none none "adaptation-field-length-beyond-packet")
+  -- a unit start whose counter jumps while packets of the previous unit are queued (the last 1..3 packets of that unit
+  -- were lost), and the same with the queue empty (first packet of the PID)
+  for lost in [1, 2, 3] do
+    let pl ← liftGen (randBytes 900)
+    let pes : Bytes := [0, 0, 1, 0xe0, 0, 0, 0x80, 0, 0] ++ pl
+    let u : Spec.TSUnit := { pid := 0x100, payload := pes, data := [], psi := false, chunks := [184, 184, 184, 184, pes.length - 736] }
+    let ps1 := Spec.packetsOf u 0
+    let ps2 := Spec.packetsOf u ((5 + lost) % 16)
+    emit "C03" (demuxCase (pat0Bytes ++ bytesOf (ps1.take (5 - lost) ++ ps2)) { view := .seq } none none "unit-start-with-counter-jump-and-queue")
+    emit "C03" (demuxCase (bytesOf (ps2 ++ ps1.take (5 - lost) ++ ps2)) { view := .seq } none none "unit-start-with-counter-jump-and-queue")
   -- the CAT PID (1): units that look like a PES, like a PAT, like nothing — none of them is delivered as data
   for payload in ([[0, 0, 1, 0xe0, 0, 0, 0x80, 0, 0, 1, 2, 3], [0, 0, 0xb0, 0x0d, 0, 1, 0xc1, 0, 0, 0, 1, 0xf0, 0, 0x2a, 0xb1, 0x04, 0xb2],
                    [0, 1, 0xb0, 0x05, 1, 2, 3, 4, 5], [9, 9, 9, 9]] : List Bytes) do
@@ -420,6 +438,12 @@ def runC19 (t : Tier) : Emit Unit := do
     let repl := showPerPID ((perPID m2.units).map (fun (pid, _, _) =>
         (pid, (m2.units.filter (·.pid == pid)).map fun u => replacerData (packetsOf u 0))) |>.toArray.qsort (fun a b => a.1 < b.1) |>.toList) 0 "eof"
     emit "C19" (demuxCase bs2 { view := .perpid, parser := .replacer } none (some repl) "parser-replacer")
+    -- a stream joined in the middle of a unit (its first 1..3 packets missing): the headless group is handed to the parser
+    -- like every other group (log), whatever the parser kind
+    for cut in [1, 2, 3] do
+      let joined := bytesOf (m2.packets.drop cut)
+      emit "C19" (demuxCase joined { view := .seq, parser := .observer } none none "parser-stream-joined-mid-unit")
+      emit "C19" (demuxCase joined { view := .seq, parser := .replacer } none none "parser-stream-joined-mid-unit")
     -- a parser that takes every unit over and returns nothing: nothing is delivered (and nothing is parsed by default)
     emit "C19" (demuxCase bs2 { view := .perpid, parser := .dropper } none (some (showPerPID [] 0 "eof")) "parser-dropper")
     emit "C19" (demuxCase bs2 { view := .seq, parser := .dropper } none none "parser-dropper-log")
